@@ -12,7 +12,8 @@
      dec_enc_text_hyp      decoding the concatenated per-character encodings (after the BOM) gives the text
      ascii_encodable_hyp   every ASCII character is encodable (so the handler's text is)
      ascii_transparent_hyp no BOM and ASCII characters are their own byte (charset_rule_first only)   *)
-From CssV Require Import Base Regex Gen.TokTables Tokenizer EscapeEnc EscapeEncFacts.
+From CssV Require Import Base Regex Gen.TokTables Gen.Productions Tokenizer Lexemes EscapeEnc EscapeEncFacts EscapeEncLexemes EscapeEncBackslash.
+From CssV Require Import Gen.CodecFns EscapeEncDetect.
 
 (* "cssText is a byte string that decodes under that encoding ... represents every character the
    encoding cannot express as a CSS escape": encoding never raises, and the bytes decode to the text in
@@ -32,6 +33,34 @@ Theorem escape_resolves : forall encc text,
   ~ In 92%N text -> valid text -> unicodesub (escape_unenc encc text) = text.
 Proof. exact escape_resolves_lemma. Qed.
 Print Assumptions escape_resolves.
+
+(* texts WITH literal backslashes: for EVERY text the tokenizer's escape resolution of the escaped spelling equals
+   its escape resolution of the text itself -- the escapes the serializer adds never interact with backslashes,
+   hex digits or white space already in the text (in particular any number of backslashes directly before an
+   unencodable character, the trigger of seeded C13-4).  So there is no backslash-parity condition at HEAD
+   (unicodesub ignores parity): the text comes back exactly when it was a fixpoint of unicodesub to begin with,
+   e.g. when no backslash is directly followed by a hex digit (bs_ok).                                          *)
+Theorem escape_resolves_general : forall encc, (forall c, (c < 128)%N -> encodable encc c = true) ->
+  forall text, valid text -> unicodesub (escape_unenc encc text) = unicodesub text.
+Proof. exact escape_resolves_general_lemma. Qed.
+Print Assumptions escape_resolves_general.
+
+Theorem roundtrip_iff_fixpoint : forall encc, (forall c, (c < 128)%N -> encodable encc c = true) ->
+  forall text, valid text -> (unicodesub (escape_unenc encc text) = text <-> unicodesub text = text).
+Proof. exact roundtrip_iff_fixpoint_lemma. Qed.
+Print Assumptions roundtrip_iff_fixpoint.
+
+Theorem escape_resolves_backslash : forall encc, (forall c, (c < 128)%N -> encodable encc c = true) ->
+  forall text, valid text -> bs_ok text = true -> unicodesub (escape_unenc encc text) = text.
+Proof. exact escape_resolves_backslash_lemma. Qed.
+Print Assumptions escape_resolves_backslash.
+
+Example backslash_ex :
+  let t := (s "C:\" ++ [220%N] ++ s "b \\" ++ [8364%N] ++ s "\g")%N in
+  bs_ok t = true /\ unicodesub (escape_unenc ascii_encc t) = t /\
+  (* a text that is not a fixpoint: backslash + hex digit *)
+  unicodesub (escape_unenc ascii_encc (s "\41 " ++ [233%N])) = s "A" ++ [233%N].
+Proof. vm_compute. repeat split; reflexivity. Qed.
 
 (* both together: what the re-parse is given *)
 Theorem encode_decode_resolve : forall encc dec bom good,
@@ -61,6 +90,84 @@ Theorem escape_token_stable : forall encc name lexeme after,
 Proof. exact escape_value_stable_lemma. Qed.
 Print Assumptions escape_token_stable.
 
+(* ---- token BOUNDARIES of escaped lexemes ------------------------------------------------------------------
+   `first_token dc prev t` = what one iteration of the tokenizer loop yields at the start of t: (type, value,
+   length of the match).  For every lexeme l of a class, written in its escaped spelling and followed by any text
+   that cannot continue it, the first token is (class, l, length of the escaped spelling): the escape's
+   terminating space neither ends the token early nor lets it swallow what follows.  Proved by showing that the
+   escaped spelling is a lexeme of the C09 development (LexemeFacts.lexeme_wins); hypothesis on the codec:
+   ASCII characters are encodable.  Characters of l: nmstart_plain / nmchar_plain = ASCII name characters or any
+   code point >= 128; str_plain q = anything but newline, backslash and the quote.
+
+   Full statement for IDENT (any identifier) is NOT proved: an identifier without leading dash whose FIRST
+   character is unencodable (spelled backslash-hex) or is u/U competes with the URI / UNICODE-RANGE productions;
+   that case, FUNCTION and URI tokens are covered by the closed Examples below, the correspondence (K stream) and
+   the oracle only.                                                                                           *)
+Theorem escaped_ident_first_token_partial : forall encc, (forall c, (c < 128)%N -> encodable encc c = true) ->
+  forall d c0 cs follow dc prev,
+  nmstart_plain c0 = true -> forallb nmchar_plain cs = true -> valid (c0 :: cs) ->
+  hd_not nm_cont follow = true -> hd_not (is_c 40) follow = true ->
+  (d = true \/ (encodable encc c0 = true /\ c0 <> 85%N /\ c0 <> 117%N)) ->
+  let l := ident_chars d c0 cs in
+  first_token dc prev (escape_unenc encc l ++ follow) = Some (s "IDENT", l, length (escape_unenc encc l)).
+Proof. exact escaped_ident_first_token_lemma. Qed.
+Print Assumptions escaped_ident_first_token_partial.
+
+Theorem escaped_hash_first_token : forall encc, (forall c, (c < 128)%N -> encodable encc c = true) ->
+  forall cs follow dc prev,
+  cs <> [] -> forallb nmchar_plain cs = true -> valid cs -> hd_not nm_cont follow = true ->
+  let l := 35%N :: cs in
+  first_token dc prev (escape_unenc encc l ++ follow) = Some (s "HASH", l, length (escape_unenc encc l)).
+Proof. exact escaped_hash_first_token_lemma. Qed.
+Print Assumptions escaped_hash_first_token.
+
+Theorem escaped_atkeyword_first_token : forall encc, (forall c, (c < 128)%N -> encodable encc c = true) ->
+  forall d c0 cs follow dc prev,
+  nmstart_plain c0 = true -> forallb nmchar_plain cs = true -> valid (c0 :: cs) ->
+  hd_not nm_cont follow = true ->
+  let l := 64%N :: ident_chars d c0 cs in
+  assoc_str (normalize l) atkeywords = None -> eqs (escape_unenc encc l) (s "@charset") = false ->
+  first_token dc prev (escape_unenc encc l ++ follow) = Some (s "ATKEYWORD", l, length (escape_unenc encc l)).
+Proof. exact escaped_atkeyword_first_token_lemma. Qed.
+Print Assumptions escaped_atkeyword_first_token.
+
+Theorem escaped_dimension_first_token : forall encc, (forall c, (c < 128)%N -> encodable encc c = true) ->
+  forall n d c0 cs follow dc prev,
+  wf_num n = true -> nmstart_plain c0 = true -> forallb nmchar_plain cs = true -> valid (c0 :: cs) ->
+  hd_not nm_cont follow = true ->
+  let l := num_text n ++ ident_chars d c0 cs in
+  first_token dc prev (escape_unenc encc l ++ follow) = Some (s "DIMENSION", l, length (escape_unenc encc l)).
+Proof. exact escaped_dimension_first_token_lemma. Qed.
+Print Assumptions escaped_dimension_first_token.
+
+Theorem escaped_string_first_token : forall encc, (forall c, (c < 128)%N -> encodable encc c = true) ->
+  forall q body follow dc prev,
+  q = 34%N \/ q = 39%N -> forallb (str_plain q) body = true -> valid body ->
+  let l := q :: body ++ [q] in
+  first_token dc prev (escape_unenc encc l ++ follow) = Some (s "STRING", l, length (escape_unenc encc l)).
+Proof. exact escaped_string_first_token_lemma. Qed.
+Print Assumptions escaped_string_first_token.
+
+(* every comment without an inner star-slash has the shape  slash star seg0 stars (c seg stars)* slash  *)
+Theorem escaped_comment_first_token : forall encc, (forall c, (c < 128)%N -> encodable encc c = true) ->
+  forall seg0 st0 gs follow dc prev,
+  forallb not_star seg0 = true -> forallb wf_group gs = true ->
+  let l := text (LComment seg0 st0 gs) in ~ In 92%N l -> valid l ->
+  first_token dc prev (escape_unenc encc l ++ follow) = Some (s "COMMENT", l, length (escape_unenc encc l)).
+Proof. exact escaped_comment_first_token_lemma. Qed.
+Print Assumptions escaped_comment_first_token.
+
+(* non-vacuity, and the cases the theorems above leave out (escape-first identifier, FUNCTION, URI), closed *)
+Example first_token_ex :
+  let E := escape_unenc ascii_encc in
+  first_token true None (E (s "a" ++ [233; 1076]%N) ++ s " b") = Some (s "IDENT", s "a" ++ [233; 1076]%N, 10%nat) /\
+  first_token true None (E ([233]%N ++ s "a") ++ s "{") = Some (s "IDENT", [233]%N ++ s "a", 5%nat) /\
+  first_token true None (E (s "f" ++ [233]%N ++ s "(") ++ s "1)") = Some (s "FUNCTION", s "f" ++ [233]%N ++ s "(", 6%nat) /\
+  first_token true None (E (s "url(" ++ [233]%N ++ s "a)") ++ s ";") = Some (s "URI", s "url(" ++ [233]%N ++ s "a)", 10%nat) /\
+  first_token true None (E (s "1.5" ++ [181]%N ++ s "m") ++ s ";") = Some (s "DIMENSION", s "1.5" ++ [181]%N ++ s "m", 8%nat) /\
+  first_token true None (E (s "/*" ++ [233]%N ++ s "**x*/") ++ s "a") = Some (s "COMMENT", s "/*" ++ [233]%N ++ s "**x*/", 11%nat).
+Proof. vm_compute. repeat split; reflexivity. Qed.
+
 (* "begins with an @charset rule naming it whenever one is set" + "parsing those bytes back detects the
    same encoding" for ASCII-transparent codecs: after sheet.encoding = e the bytes start with
    @charset "<e.lower()>"; and the css codec's charset test reads exactly the sheet's encoding back.
@@ -73,6 +180,28 @@ Theorem charset_rule_first : forall encc, (forall c, (c < 128)%N -> encc c = Som
   detect_charset b = Some (get_encoding (set_encoding e sh)).
 Proof. exact charset_rule_first_lemma. Qed.
 Print Assumptions charset_rule_first.
+
+(* detect_after_encode for ALL branches of the real detector (Gen/CodecFns.detectencoding_str, regenerated from
+   _codec3.py; C14's priority theorems): the bytes written for a sheet whose encoding was assigned are detected as
+   that encoding -- by the @charset rule for ASCII-transparent codecs, by the BOM for utf-8-sig / utf-16 / utf-32,
+   by the shape of the rule's first characters for the BOM-less utf-16-le/be, utf-32-le/be.  `family_ok` says how
+   the codec writes its BOM and the characters '@' 'c' (validated by the harness for every codec used; that the
+   family's name denotes the same Python codec as the assigned name is checked there as well).                  *)
+Theorem encoded_reparse_detects : forall f encc bom e sh b,
+  family_ok f encc bom -> (f = FCharset -> ascii_name (lower e) = true) ->
+  encode_esc encc bom (sheet_text (set_encoding e sh)) = Some b ->
+  detectencoding_str b true = Some (Some (family_name f (get_encoding (set_encoding e sh))), family_explicit f).
+Proof. exact encoded_reparse_detects_lemma. Qed.
+Print Assumptions encoded_reparse_detects.
+
+Example detects_ex :
+  family_ok FCharset ascii_encc [] /\ family_ok F16LE utf16le_encc [] /\
+  (exists b, encode_esc utf16le_encc [] (sheet_text (set_encoding (s "UTF-16-LE") [Other ([233%N] ++ s "{}")])) = Some b /\
+             detectencoding_str b true = Some (Some (s "utf-16-le"), false)).
+Proof.
+  split; [split; [reflexivity|intros c Hc; unfold ascii_encc; apply N.ltb_lt in Hc; now rewrite Hc]|].
+  split; [exact utf16le_family|]. eexists. split; [vm_compute; reflexivity|vm_compute; reflexivity].
+Qed.
 
 Theorem encoding_mirrors_charset : forall e sh, get_encoding (set_encoding e sh) = lower e.
 Proof. exact get_set_encoding. Qed.
